@@ -172,9 +172,30 @@ Immediate(K, t) ==
   /\ t.id = "ok"
   /\ LET s == VerifySigs(K, t) IN s.ok /\ VerifyUtxo(K, t, s.ver).ok
   /\ Reproduced(t)
-RefMarked(t) == \E i \in DOMAIN t.ins : t.ins[i].mk
+(* a reference to a marked transaction: a token input that spends one of its outputs, or a key input (read set)  *)
+(* that names the version it wrote ("mread": the carried request reads such a key)                                *)
+RefMarked(t) == (\E i \in DOMAIN t.ins : t.ins[i].mk) \/ t.ctr = "mread"
+(* State.verifyMarked, the fall-back State.VerifyTx (pool) and verifyDAGTxs (PlayAndRepost) consult only after      *)
+(* ImmediateVerifyTx has FAILED; Walk has none.  mh: the height of the block the transaction arrives in relative   *)
+(* to the effective height of the mark on the transaction it refers to ("pool": no block).  Transcribed:           *)
+(*   checkRelyOnMarkedTxid  a reference to a marked transaction passes iff the transaction sits in a block that    *)
+(*                          is not higher than the effective height; it reports "relies on a marked transaction"   *)
+(*   verifyRelyOnMarkedTxs  stops at the first reference that does not pass with (false, relies); when every       *)
+(*                          reference passes it ends with (true, the function-level flag) - and that flag is never *)
+(*                          set: the results in the loops are declared with := , shadows of it                     *)
+(*   callers                `if isRelyOnMarkedTx { return the fall-back's verdict }` else the failure stands       *)
+(* so the fall-back only ever turns a failure into another failure ("soft": (false, nil), KF_MarkedRefSoftAccept). *)
+(* With the flag propagated a block entry at / below the effective height would be taken although it failed.       *)
+MarkHeights == {"above", "at", "below"}
+RefPasses(mh) == mh \in {"at", "below"}
+MarkedFallback(t, mh) == IF ~RefMarked(t) THEN [ok |-> TRUE, rely |-> FALSE]
+                         ELSE IF RefPasses(mh) THEN [ok |-> TRUE, rely |-> FALSE]    \* (the shadowed flag)
+                         ELSE [ok |-> FALSE, rely |-> TRUE]
+VerifyAt(K, t, mh) == IF Immediate(K, t) THEN "ok"
+                      ELSE LET f == MarkedFallback(t, mh) IN
+                           IF ~f.rely THEN "rej" ELSE IF f.ok THEN "ok" ELSE IF K.mref THEN "soft" ELSE "rej"
 (* State.VerifyTx: a failing transaction that refers to a marked transaction gets (false, nil) *)
-VerifyCode(K, t) == IF Immediate(K, t) THEN "ok" ELSE IF K.mref /\ RefMarked(t) THEN "soft" ELSE "rej"
+VerifyCode(K, t) == VerifyAt(K, t, "pool")
 
 -----------------------------------------------------------------------------
 (* The semantic definition (property statement). *)
@@ -324,7 +345,9 @@ AllOwners == BasicOwners \cup
    OC(<<In("C")>>, "pay"),                        \* the contract's output without justification
    OC(<<InCJ("C"), InCJ("C")>>, "pay"),
    OC(<<InCJ("k1")>>, "none"),
-   OC(<<InMK("k1")>>, "none"), OC(<<InMK("kx")>>, "none"), OC(<<In("k1"), InMK("kx")>>, "none")} \cup
+   OC(<<InMK("k1")>>, "none"), OC(<<InMK("kx")>>, "none"), OC(<<In("k1"), InMK("kx")>>, "none"),
+   OC(<<InMK("A")>>, "none"), OC(<<InMK("k1"), In("k1")>>, "none"),
+   OC(<<>>, "mread"), OC(<<In("k1")>>, "mread"), OC(<<In("kx")>>, "mread")} \cup   \* the request reads a key the marked transaction wrote
   AcctOwners \cup
   {OC(<<In("A"), In("T")>>, "none"), OC(<<In("K"), In("k1")>>, "none"), OC(<<In("S"), In("L")>>, "none"), OC(<<In("T")>>, "vprog")}
 
@@ -342,7 +365,8 @@ BuildXS(v, f, pkst, sst, id, oc) ==
 (* whose rule the members named for it in the signer list meet                                           *)
 SignKeys(f) == Rng(FormDef[f].isl) \cup Rng(Lasts(FormDef[f].auth)) \cup Rng(FormDef[f].pks) \cup ({FormDef[f].init} \cap Keys)
 HonestOwnerSets == [f \in Forms |-> SignKeys(f) \cup {a \in Accts : RuleMet(a, MembersVia(a, FormDef[f].auth))}]
-HonestOC(f, oc) == /\ \A i \in DOMAIN oc.ins : ~oc.ins[i].mk /\
+HonestOC(f, oc) == /\ oc.ctr # "mread"
+                   /\ \A i \in DOMAIN oc.ins : ~oc.ins[i].mk /\
                         IF oc.ins[i].cj THEN oc.ins[i].own = "C" /\ oc.ctr = "pay" ELSE oc.ins[i].own \in HonestOwnerSets[f]
                    /\ (oc.ctr = "pay" => Cardinality({i \in DOMAIN oc.ins : oc.ins[i].cj}) = 1)
 HonestTx(v, f, oc) == IF f \in SigForms THEN BuildSig(v, f, AllValid(Len(Slots(f))), "ok", oc)
@@ -377,8 +401,11 @@ OwnerIdxFor(f, k, id) ==
   ELSE IF id = "stale" \/ d > 1 THEN (IF FullOwners /\ id = "ok" THEN BasicIdx ELSE {})
   ELSE (IF FullOwners THEN BasicIdx \cup AcctIdx ELSE BasicIdx)
 (* a filtered product, not a UNION of many small sets (TLC's UNION is quadratic on large results) *)
+MkIdx == {i \in DOMAIN OwnerSeq : OwnerSeq[i].ctr = "mread" \/ \E j \in DOMAIN OwnerSeq[i].ins : OwnerSeq[i].ins[j].mk}
+MkForms == {"addr", "multi", "multiA", "acctI"}
+MkCaseIds == {c \in MkForms \X (1..MaxTab) \X {"ok", "stale"} \X MkIdx \X (1..3) : c[2] <= TabLen(c[1]) /\ DevAt(c[1], c[2]) <= 1}
 CaseIds == {c \in Forms \X (1..MaxTab) \X {"ok", "stale"} \X (DOMAIN OwnerSeq) \X (1..3) :
-              c[2] <= TabLen(c[1]) /\ c[4] \in OwnerIdxFor(c[1], c[2], c[3])}
+              c[2] <= TabLen(c[1]) /\ c[4] \in OwnerIdxFor(c[1], c[2], c[3])} \cup MkCaseIds
 CaseOf(c) == IF c[1] \in SigForms THEN BuildSig(c[5], c[1], VecTab[c[1]][c[2]], c[3], OwnerSeq[c[4]])
              ELSE BuildXS(c[5], c[1], XSTab[c[1]][c[2]][1], XSTab[c[1]][c[2]][2], c[3], OwnerSeq[c[4]])
 
@@ -641,7 +668,7 @@ SubAllowed(K, t) == {IF v = "soft" THEN "ok" ELSE v : v \in AllowedK(K, t)}
 (* "none".                                                                                              *)
 Pools == {"none", "base"}
 Vias == {"walk", "play"}
-NoBlk == [pool |-> "-", via |-> "-", same |-> FALSE, res |-> "-", app |-> "-"]
+NoBlk == [pool |-> "-", via |-> "-", same |-> FALSE, mh |-> "-", res |-> "-", app |-> "-"]
 Entry(K, t, m) == IF m = NoMut THEN t ELSE MutTx(K, t, m)
 (* which ids the entry may claim relative to the base: an unchanged id field over changed content is   *)
 (* abstractly "stale"; a recomputed id over changed content differs; where nothing the abstraction sees *)
@@ -650,10 +677,11 @@ SameChoices(t, e, m) == IF m = NoMut \/ e.id = "stale" THEN {TRUE} ELSE IF e = t
 (* transcription: Walk rolls the pool back, verifies every block entry (procTodoBlkForWalk:            *)
 (* ImmediateVerifyTx) and applies the block's copy; PlayAndRepost (processUnconfirmTxs / verifyDAGTxs)  *)
 (* takes an entry whose id is in the pool as confirmed: not verified, not applied, the pooled copy's    *)
-(* effects stay - sound only where the block's copy is the pooled content (IDEAL)                       *)
-BlockCode(K, t, e, pool, via, same) ==
+(* effects stay - sound only where the block's copy is the pooled content (IDEAL); an entry that fails  *)
+(* goes through the marked-transaction fall-back with the block's height (mh)                           *)
+BlockCode(K, t, e, pool, via, same, mh) ==
   IF via = "play" /\ pool = "base" /\ same /\ (K.ppool \/ e = t) THEN [res |-> "ok", app |-> "pool"]
-  ELSE IF (IF via = "play" THEN VerifyCode(K, e) # "rej" ELSE Immediate(K, e)) THEN [res |-> "ok", app |-> "entry"]
+  ELSE IF (IF via = "play" THEN VerifyAt(K, e, mh) # "rej" ELSE Immediate(K, e)) THEN [res |-> "ok", app |-> "entry"]
   ELSE [res |-> "rej", app |-> IF via = "play" /\ pool = "base" THEN "pool" ELSE "none"]
 (* what the property allows for an observed outcome: res and the set fl of contents the state after the  *)
 (* block is consistent with ("e" entry, "p" pooled, "n" nothing; they may coincide)                       *)
@@ -669,6 +697,14 @@ BlkAllowedK(K, t, m, pool, via, same, samec, res, fl) ==
   \/ /\ K.ppool /\ via = "play" /\ pool = "base" /\ same /\ ~samec
      /\ res = "ok" /\ "p" \in fl
 DevBlk(K, t, m, pool, via, same, samec, res, fl) == {KFName[g] : g \in {h \in Flags : K[h] /\ BlkAllowedK(Only(h), t, m, pool, via, same, samec, res, fl)}}
+
+(* The family "the entry refers to a marked transaction": its cases (MkCaseIds: every signature status and id  *)
+(* status of a few forms over every owner configuration with a marked reference), and what is done to an       *)
+(* accepted one of them before it is put into a block beside the pool that holds it: signature bytes, the id   *)
+(* field, content under the old and under a recomputed id.                                                     *)
+MkMuts == {Mu("SignatureInfo.Sign", "initiator_signs", 1, "flip", "none"), Mu("Transaction.txid", "", 0, "flip", "none"),
+           Mu("Transaction.desc", "", 0, "flip", "none"), Mu("Transaction.desc", "", 0, "flip", "fixid"),
+           Mu("TxOutput.to_addr", "tx_outputs", 1, "flip", "fixid")}
 
 (* rich bases of part (b): every field of the schema carries a value *)
 RichOC == OC(<<In("k1"), In("k2")>>, "vprog")
@@ -689,16 +725,17 @@ Verify == /\ phase \in {"built", "mutated"}
           /\ phase' = IF phase = "built" THEN "verified" ELSE "done"
           /\ hist' = Append(hist, [op |-> "verify"])
           /\ UNCHANGED <<tx, orig, mut, blk>>
-Mutate(m) == /\ phase = "verified" /\ verdict = "ok" /\ orig.rich
+Mutate(m) == /\ phase = "verified" /\ verdict = "ok" /\ (orig.rich \/ (RefMarked(orig) /\ m \in MkMuts))
              /\ tx' = MutTx(KC, orig, m) /\ mut' = m /\ phase' = "mutated" /\ hist' = Append(hist, [op |-> "mut"])
              /\ UNCHANGED <<orig, verdict, subm, blk>>
 (* the transaction (a case as built, or the mutated copy of an accepted base) arrives inside a peer block; *)
 (* the pool can only hold the base if that was accepted                                                   *)
-Block(pool, via, same) ==
+Block(pool, via, same, mh) ==
   /\ phase \in {"verified", "done"}
+  /\ (mh # "above" => RefMarked(tx))                   \* (the height matters to entries that refer to a marked transaction only)
   /\ (pool = "base" => (IF phase = "done" THEN TRUE ELSE verdict = "ok"))
   /\ same \in SameChoices(orig, tx, mut)
-  /\ blk' = [pool |-> pool, via |-> via, same |-> same] @@ BlockCode(KC, orig, tx, pool, via, same)
+  /\ blk' = [pool |-> pool, via |-> via, same |-> same, mh |-> mh] @@ BlockCode(KC, orig, tx, pool, via, same, mh)
   /\ phase' = "blocked" /\ hist' = Append(hist, [op |-> "blk"])
   /\ UNCHANGED <<tx, orig, mut, verdict, subm>>
 (* guards outside the quantifiers: TLC enumerates the bound set before it looks at the action's guard *)
@@ -706,16 +743,17 @@ Next == \/ (phase = "init" /\ \E c \in CaseIds : Build(CaseOf(c)))
         \/ (phase = "init" /\ \E t \in RichBases : Build(t))
         \/ Verify
         \/ (phase = "verified" /\ verdict = "ok" /\ orig.rich /\ \E m \in MutsFor(orig) : Mutate(m))
-        \/ (phase \in {"verified", "done"} /\ \E pool \in Pools, via \in Vias, same \in BOOLEAN : Block(pool, via, same))
+        \/ (phase = "verified" /\ verdict = "ok" /\ RefMarked(orig) /\ ~orig.rich /\ \E m \in MkMuts \cap MutsFor(orig) : Mutate(m))
+        \/ (phase \in {"verified", "done"} /\ \E pool \in Pools, via \in Vias, same \in BOOLEAN, mh \in MarkHeights : Block(pool, via, same, mh))
 Spec == Init /\ [][Next]_vars
 View == <<phase, tx, orig, mut, verdict, subm, blk>>
 Obs == verdict
 
 -----------------------------------------------------------------------------
 (* Invariants (asserted on IDEAL) *)
-TypeOK == /\ phase \in {"init", "built", "verified", "mutated", "done", "blocked"}
+TypeOK == /\ phase \in {"init", "built", "verified", "mutated", "done", "blocked"} /\ blk.mh \in MarkHeights \cup {"-"}
           /\ verdict \in {"ok", "rej", "soft", "-"} /\ subm \in {"ok", "rej", "-"}
-          /\ tx.ver \in 1..3 /\ tx.id \in {"ok", "stale"} /\ tx.ctr \in {"none", "vprog", "pay"}
+          /\ tx.ver \in 1..3 /\ tx.id \in {"ok", "stale"} /\ tx.ctr \in {"none", "vprog", "pay", "mread"}
 (* (a) accepted => authorised: id = hash of content, initiator and every listed signer signed this digest, *)
 (*     every spent output's owner is among them, through its account's rule, or contract-justified        *)
 Sound == (phase \in {"verified", "done"} /\ verdict # "rej") => (verdict = "ok" /\ Authorised(tx))
@@ -734,6 +772,7 @@ DistinctMembers == (phase = "verified" /\ verdict = "ok") =>
 (*     none of the entry's content                                                                        *)
 BlockSound == phase = "blocked" =>
                  /\ (blk.res = "ok" => Authorised(tx) /\ (blk.app = "entry" \/ (blk.app = "pool" /\ tx = orig)))
+                 /\ (~Immediate(K0, tx) /\ RefMarked(tx) => blk.res = "rej")     \* no height of the block opens a way round the signatures
                  /\ (blk.res = "rej" => blk.app # "entry")
                  /\ (Honest(tx) => blk.res = "ok")
                  /\ LET fl == (IF blk.app = "entry" \/ (tx = orig /\ blk.app = "pool") THEN {"e"} ELSE {}) \cup (IF blk.app = "pool" THEN {"p"} ELSE {}) \cup (IF blk.app = "none" THEN {"n"} ELSE {})
